@@ -57,7 +57,12 @@ int main(int argc, char ** argv) {
             o.putb("good", (f && reading) ? f->good() : true);
             o.putb("eof", (f && reading) ? f->eof() : false);
             o.put("k", k).put("w", w).putb("dead", dead);
-            o.put("threads", (f && f->is_open()) ? -1 : os_threads() - base);
+            long th = -1;
+            if (!(f && f->is_open())) {
+                // a joined thread can stay visible in /proc for a moment: give it up to 400 ms to disappear
+                for (int i = 0; i < 200 && (th = os_threads() - base) > 0; i++) usleep(2000);
+            }
+            o.put("threads", th);
             int leaked = 0;
             if (dead) leaked = __lsan_do_recoverable_leak_check() ? 1 : 0;
             o.put("leaked", leaked + (wrongId ? 2 : 0));
